@@ -57,6 +57,7 @@ def run(fb, rep, tier):
     C10.completion_flag(fb, rep, 'C05.11')
     c12_limits_reach_search(fb, rep)
     c13_output_lines(fb, rep, cg)
+    c14_limited_strength_single_thread(fb, rep)
     rep.extra['call_graph'] = {'functions': len(cg.edges), 'thread_roots': [fb.kname(k) + ' <- ' + fb.kname(c) for k, c, _ in cg.thread_roots if R.in_engine(fb.funcs.get(c)) ] if True else []}
     rep.extra['constant_stub_branches_folded'] = sorted({'%s -> %s' % (n, v) for _, _, n, v in fb.folded})
 
@@ -744,6 +745,100 @@ def c13_output_lines(fb, rep, cg):
         rep.ob(clause, 'K6 lock discipline', 'no function called with the output mutex held waits for another thread', not blocking,
                R.site(blocking[0][0], blocking[0][1]) if blocking else '', 'functions that wait/join/sleep: %d; reached with the mutex held: %s' % (len(blockers), [(f.sname, show(e, 60), h[:2]) for f, e, h in blocking[:3]]),
                blocking[0][0].sname if blocking else '')
+
+
+# ----------------------------------------------------------------------------- .14
+
+def _uci_params(t):
+    return {n['q'].split('::')[-1] for n in walk(t) if n.get('k') == 'var' and str(n.get('q', '')).startswith('UciParams::')}
+
+
+def c14_limited_strength_single_thread(fb, rep):
+    """K10 agreement between two sites: the strength-limiting machinery of Search (random evaluation noise, move
+    skipping, the MaxNPS sleep in shouldStop, which sleeps for total-nodes / maxNPS) runs on the master thread only and
+    counts the nodes of all threads; it is sound only with a single search thread.  So every UCI parameter that feeds
+    Search::setStrength must force nThreads = 1 where the search is started - either by appearing in that guard, or by
+    being read only where a parameter that is itself a bare disjunct of the guard is true."""
+    clause = 'C05.14'
+    st = fb.find1('EngineControl::startThread')
+    ss = fb.find1('EngineMainThread::startSearch')
+    if not rep.need(clause, st, 'EngineControl::startThread') or not rep.need(clause, ss, 'EngineMainThread::startSearch'):
+        return
+    # the single-thread guard
+    guard = None
+    for b, i, e in ss.events():
+        if e.get('k') == 'asg' and (_strip_c(e.get('r')) or {}).get('cv') == 1 and isinstance(_strip_c(e.get('l')), dict) and _strip_c(e['l']).get('k') == 'var':
+            vid = _strip_c(e['l'])['id']
+            # the variable is the thread count handed to the thread assignment
+            if not any(ev.get('k') == 'call' and any(n.get('k') == 'var' and n.get('id') == vid for a in ev.get('args', []) for n in walk(a)) for _, _, ev in ss.events()):
+                continue
+            for bid, blk in ss.blocks.items():
+                t = blk.get('term') or {}
+                if t.get('c') == 'IfStmt' and blk['succ'] and blk['succ'][0] == b:
+                    guard = t.get('cond')
+    if rep.need(clause, guard, 'the guard of `nThreads = 1` in EngineMainThread::startSearch') is None:
+        return
+    decls = {v['id']: v.get('init') for _, _, e in ss.events() if e.get('k') == 'decl' for v in e.get('vars', []) if v.get('init') is not None}
+
+    def expand(t, depth=0):
+        """parameters a condition depends on, through the locals it mentions"""
+        out = _uci_params(t)
+        if depth < 4:
+            for n in walk(t):
+                if n.get('k') == 'var' and n.get('vk') == 'local' and n.get('id') in decls:
+                    out |= expand(decls[n['id']], depth + 1)
+        return out
+    gparams = expand(guard)
+
+    def disjuncts(c):
+        c = _strip_c(c)
+        if isinstance(c, dict) and c.get('k') == 'bin' and c.get('op') == '||':
+            return disjuncts(c.get('l')) + disjuncts(c.get('r'))
+        return [c]
+    bare = set()
+    for d in disjuncts(guard):
+        if isinstance(d, dict) and d.get('k') == 'call' and cname(d).split('::')[-1] == 'getBoolPar':
+            bare |= _uci_params(d)
+    # functions feeding setStrength
+    feeders = []
+    direct = set()
+    for b, i, e in st.events():
+        if e.get('k') == 'call' and cname(e) == 'Search::setStrength':
+            for a in e.get('args', []):
+                direct |= _uci_params(a)
+                for n in walk(a):
+                    if n.get('k') == 'call' and n.get('repo') and cname(n).startswith('EngineControl::'):
+                        g = fb.find1(cname(n))
+                        if g is not None and g.has_cfg:
+                            feeders.append(g)
+    rep.floor(clause, 'functions feeding Search::setStrength', len(feeders), 2)
+    from .. import regions as G
+    need = {}
+    for p_ in direct:
+        need[p_] = [('EngineControl::startThread', False)]
+    for g in feeders:
+        trees = [(b, e) for b, i, e in g.events()] + [(bid, blk['term']['cond']) for bid, blk in g.blocks.items() if bid not in g.dead and (blk.get('term') or {}).get('cond') is not None]
+        for b, t in trees:
+            ps = _uci_params(t)
+            if not ps:
+                continue
+            enabling = set()
+            for c, side in G.guard_trees(g, set(g.blocks), b):
+                if side and isinstance(_strip_c(c), dict) and _strip_c(c).get('k') == 'call' and cname(_strip_c(c)).split('::')[-1] == 'getBoolPar':
+                    enabling |= _uci_params(c)
+            for p_ in ps:
+                need.setdefault(p_, []).append((g.sname, bool(enabling & bare)))
+    rep.floor(clause, 'UCI parameters feeding Search::setStrength', len(need), 3)
+    for p_, reads in sorted(need.items()):
+        ok = p_ in gparams or all(cov for _, cov in reads)
+        rep.ob(clause, 'K10 site agreement', 'the strength-limiting parameter %s forces a single search thread' % p_, ok, ss.where,
+               'single-thread guard reads %s (bare switches %s); %s is read in %s' % (sorted(gparams), sorted(bare), p_, sorted({fn for fn, _ in reads})), ss.sname)
+
+
+def _strip_c(t):
+    while isinstance(t, dict) and (t.get('k') == 'cast' or (t.get('k') == 'paren')):
+        t = t.get('e')
+    return t
 
 
 # ----------------------------------------------------------------------------- .8
